@@ -56,6 +56,11 @@ def ctxspec(c):
     return ["L"] + lst(c)
 def custom(cb): return [hopt(cb.get("gcc_deps"))] + lst(cb["cmd"]) + optlst(cb.get("out"))
 
+def download(d):
+    g = d.get("git") or {}
+    src = ["C", hexs(g["url"]), hexs(g["commit"])] if "git" in d and set(g) == {"url", "commit"} else ["U"]
+    return src + optlst(d.get("patches")) + [hopt(d.get("dldir"))]
+
 def mod(m):
     e = m.get("env") or {}
     return [hopt(m.get("name"))] + ctxspec(m.get("context")) + optlst(m.get("depends"), depspec) + \
@@ -66,7 +71,8 @@ def mod(m):
            (["-"] if m.get("build") is None else ["+"] + custom(m["build"])) + \
            optenv(e.get("local")) + optenv(e.get("export")) + optenv(e.get("global")) + \
            optlst(m.get("blocklist")) + optlst(m.get("allowlist")) + [hopt(m.get("srcdir"))] + \
-           [b(m.get("is_build_dep", False)), b(m.get("is_global_build_dep", False))]
+           [b(m.get("is_build_dep", False)), b(m.get("is_global_build_dep", False))] + \
+           (["-"] if m.get("download") is None else ["+"] + download(m["download"]))
 
 def modlist(d, key):
     if key not in d: return ["-"]
